@@ -195,6 +195,18 @@ func (c *C13Case) Run() string {
 		if (cerr == nil) != (xerr == nil) {
 			return fmt.Sprintf("%s: AP.T(%v) error=%v but SafeT error=%v", desc, c.Perm, cerr, xerr)
 		}
+		if !isPermutation(c.Perm, len(c.Shape)) && nonUnit(c.Shape) < 2 {
+			rec.Class("T:not-a-permutation(vector-like: nothing asserted)")
+			return ""
+		}
+		if !isPermutation(c.Perm, len(c.Shape)) {
+			// axes that are no permutation of the tensor's axes are refused by both
+			rec.Class("T:not-a-permutation")
+			if cerr == nil {
+				return fmt.Sprintf("%s: the axes %v are no permutation of %d axes, but AP.T and SafeT accept them (result shape %v)", desc, c.Perm, len(c.Shape), r.Shape())
+			}
+			return ""
+		}
 		if cerr == nil {
 			if !eqInts([]int(ap.Shape()), []int(r.Shape())) {
 				return fmt.Sprintf("%s: AP.T(%v) predicts %v, SafeT produces %v", desc, c.Perm, ap.Shape(), r.Shape())
@@ -435,7 +447,22 @@ func TestC13(t *testing.T) {
 		lk := lk
 		cell(t, "C13", "C13.shape", "T/"+lk, nCases(150, 4000), func(rt *rapid.T) Case {
 			shape := genShape(rt, 0, 5, 3, "s")
-			return &C13Case{Kind: "T", Shape: shape, L: genLayoutKind(rt, lk, len(shape), "l"), Perm: genPerm(rt, len(shape), "perm")}
+			c := &C13Case{Kind: "T", Shape: shape, L: genLayoutKind(rt, lk, len(shape), "l"), Perm: genPerm(rt, len(shape), "perm")}
+			if len(shape) >= 2 && rapid.IntRange(0, 5).Draw(rt, "badperm") == 0 {
+				// not a permutation: an axis twice, an axis that does not exist, one axis too few or too many
+				i := rapid.IntRange(0, len(shape)-1).Draw(rt, "bi")
+				switch rapid.IntRange(0, 3).Draw(rt, "bk") {
+				case 0:
+					c.Perm[i] = c.Perm[(i+1)%len(shape)]
+				case 1:
+					c.Perm[i] = len(shape) + rapid.IntRange(0, 1).Draw(rt, "bo")
+				case 2:
+					c.Perm = c.Perm[:len(c.Perm)-1]
+				default:
+					c.Perm = append(c.Perm, len(shape))
+				}
+			}
+			return c
 		})
 	}
 	for _, lk := range []string{"contig", "lazyT", "sliced", "leadsliced", "stepsliced", "materialized", "clonedview", "cmraw", "cmconv", "Tsliced", "slicedT", "picked", "pickslice", "physT"} {
@@ -598,4 +625,19 @@ func (c *censusCase) Run() string {
 		rec.Class("inner-failed")
 	}
 	return ""
+}
+
+// isPermutation: p lists each of 0..n-1 exactly once.
+func isPermutation(p []int, n int) bool {
+	if len(p) != n {
+		return false
+	}
+	seen := make([]bool, n)
+	for _, a := range p {
+		if a < 0 || a >= n || seen[a] {
+			return false
+		}
+		seen[a] = true
+	}
+	return true
 }
